@@ -220,11 +220,15 @@ def build(tier, seed):
     else:
         # one slice per recipe length, the longest also per request origin: every path tree is exhausted
         for nn in range(0, n + 1):
-            for oo in ((0, 1, 2) if nn == n else (None,)):
-                opre = "0 <= o <= 2" if oo is None else f"o == {oo}"
-                m.ob(f"scan_n{nn}" + ("" if oo is None else f"_o{oo}"), sc + ", off: int", "n = pick(n, 5)\nreturn scan([k0, k1, k2, k3][:n], [t0, t1, t2, t3][:n], o, off)",
-                     pre=[f"n == {nn}", kp, opre, "0 <= off <= n"] + [f"k{j} == 0 and not t{j}" for j in range(nn, 4)], timeout=tmo,
-                     family="router: LocatedRequestRouter.route_handler from every offset", bounds=f"recipes of exactly {nn} items" + ("" if oo is None else f", request origin {oo}") + ", every offset")
+            for oo in ((0, 1, 2) if nn >= n - 1 else (None,)):
+                for kk in ((0, 1, 2, 3) if nn == n else (None,)):
+                    opre = "0 <= o <= 2" if oo is None else f"o == {oo}"
+                    kpre = [] if kk is None else [f"k0 == {kk}"]
+                    m.ob(f"scan_n{nn}" + ("" if oo is None else f"_o{oo}") + ("" if kk is None else f"_k{kk}"), sc + ", off: int",
+                         "n = pick(n, 5)\nreturn scan([k0, k1, k2, k3][:n], [t0, t1, t2, t3][:n], o, off)",
+                         pre=[f"n == {nn}", kp, opre, "0 <= off <= n"] + kpre + [f"k{j} == 0 and not t{j}" for j in range(nn, 4)], timeout=tmo,
+                         family="router: LocatedRequestRouter.route_handler from every offset",
+                         bounds=f"recipes of exactly {nn} items" + ("" if oo is None else f", request origin {oo}") + ("" if kk is None else f", first item kind {kk}") + ", every offset")
     m.ob("step", "p0: bool, p1: bool, p2: bool, kind: int, truth: bool, o: int", "return step(p0, p1, p2, kind, truth, o)",
          pre=["0 <= kind <= 3", "0 <= o <= 2"], timeout=tmo,
          family="router: ExactOriginCombiner inductive step (arbitrary pending combo, one item)",
